@@ -57,11 +57,19 @@ class Hooks(W.Hooks):
                         return ctx.fail(f"{si.kind}/{si.op}/result-shares-column-objects",
                                         f"step {step}: the result of {si.op} holds a column object of entry {e.id}")
         # rows the program read by indexing (t[i]) and kept: they show what the table held when they were taken
-        for rid, row, was, tid in world.rows:
+        for rid, row, (was, by_name), tid in world.rows:
             now = tuple(W.freeze(x) for x in row)
             if now != was:
                 return ctx.fail(f"{si.kind}/{si.op}/held-row-changed",
                                 f"step {step}: a row taken earlier by indexing table entry {tid} showed {was}, now shows {now}")
+            for acc, val in by_name.items():
+                try:
+                    cur = W.freeze(getattr(row, acc))
+                except Exception as e:  # noqa: BLE001
+                    cur = f"<{type(e).__name__}>"
+                if cur != val:
+                    return ctx.fail(f"{si.kind}/{si.op}/held-row-changed-names",
+                                    f"step {step}: a row taken earlier from table entry {tid} answered .{acc} with {val}, now {cur}")
         allowed = set(si.may_change) if si.kind in ("write", "rename") else set()
         if si.kind in ("write", "rename"):
             tgt = world.by_id(si.info.get("target"))
@@ -110,5 +118,5 @@ def run(case, ctx):
 
 def parts(tier):
     mx = 30 if tier == "quick" else 60
-    return [Part("histories", run, strategy=lambda t: W.program(min_steps=6, max_steps=mx, extra_ops=["vec_tuple"] * 5 + ["set_int", "set_slice", "attr_assign"]), examples=(4000, 48000), shards=(16, 16),
+    return [Part("histories", run, strategy=lambda t: W.program(min_steps=6, max_steps=mx, extra_ops=["vec_tuple"] * 5 + ["set_int", "set_slice", "attr_assign", "row_index", "row_index", "rename_column", "tset_cell"]), examples=(4000, 48000), shards=(16, 16),
                  floors={"programs_with_related_write": 0.1})]
